@@ -1913,16 +1913,9 @@ class Scheduler:
         if job.call_hash:
             assert job.was_cached
 
-            # Need to maintain the subtree_tasks if this was a cache hit.
-            check_valid = job.get_option(
-                "check_valid", CacheCheckValid.FULL, as_type=CacheCheckValid
-            )
-            if check_valid == CacheCheckValid.FULL:
-                job.calc_subtree_tasks()
-            else:
-                # If we did ultimate reduction caching, then we need to query the
-                # backend to determine subtree tasks.
-                job.subtree_tasks = self._get_subtree_tasks(job)
+            # The job was replayed from a recorded CallNode (CSE or ultimate reduction), so it has
+            # no child jobs: the tasks of its subtree are the ones recorded with the CallNode.
+            job.subtree_tasks.update(self._get_subtree_tasks(job))
         else:
             # Ignore failed child jobs, which have no call_hash.
             child_call_hashes = [
